@@ -389,7 +389,7 @@ PROPS = {
     ),
     "C11": dict(
         module="YkProps.C11",
-        leancheck=["YkModel.Queue", "YkProofs.Queue", "YkProps.C11", "YkProps.C10"],
+        leancheck=["YkModel.Queue", "YkProofs.Queue", "YkProofs.QueueBudget", "YkProps.C11", "YkProps.C10"],
         runs=[dict(comp="queue", quick=2400, thorough=64000), dict(comp="core", quick=720, thorough=9000, extra=["-mode", "mixed"])],
         classify=cls_both("C11"),
         nontrivial=lambda line: '"op":"reset"' not in line,
@@ -398,7 +398,7 @@ PROPS = {
                  "counters vs applications of the subtree (running <= #Running, allocating are live, zero when empty) are monitored on the full stack"],
         assumptions=["maxApplications fixed during a history of counter operations (lowering it is a configuration change)"],
         level_text="Lean 4 proofs for all trees and histories of counter operations: canRunApp says yes only if every ancestor with a maximum has room for one more next to running+allocating (or already tracks the application); "
-                   "the running count never exceeds the maximum; an application counted as running is no longer allocating. Tie: correspondence against objects.Queue (hooks) + the gate clause evaluated on the dumped state.",
+                   "the running count never exceeds the maximum; an application counted as running is no longer allocating; over every history whose admissions all went through the gate, running + allocating never exceeds the maximum of any queue (budget), and one ungated admission breaks that (budget_needs_gate). Tie: correspondence against objects.Queue (hooks) + the gate clause evaluated on the dumped state.",
         level_note="trusted: Lean kernel; hand-written queue counters model tied by correspondence only",
         technique="Lean 4 invariant proof over counter-operation histories + differential correspondence on objects.Queue",
         design_ref="DESIGN.md section 4 C11",
